@@ -158,8 +158,9 @@ class Stack:
                 def service_stopped(self, service, source):
                     ev("stopped", (source, service.service_id, service.instance_id))
 
-            wild = w.rng_cfg.random() < 0.5
-            eg = C.Eventgroup(service_id=SVC[0], instance_id=0xFFFF if wild else SVC[1], major_version=0xFF if wild else SVC[2],
+            # any instance / any version / both / neither
+            wild_i, wild_m = w.rng_cfg.choice(((True, True), (False, False), (True, False), (False, True)))
+            eg = C.Eventgroup(service_id=SVC[0], instance_id=0xFFFF if wild_i else SVC[1], major_version=0xFF if wild_m else SVC[2],
                               eventgroup_id=EG, sockname=(self.addr[0], 4000), protocol=H.L4Protocols.UDP)
             self.prot.discovery.find_subscribe_eventgroup(eg)
             self.prot.discovery.watch_service(eg.as_service(), L())
